@@ -91,6 +91,16 @@ TABLE = {
             "argmax/argmin/amax/amin without axis (all sort options) with symbolic coefficients incl. zero elements, equal leading terms and negative leading coefficients; oracle = exact "
             "model leading term under an independent implementation of the monomial order; the proxy must be a permutation consistent with (leading exponent, leading coefficient).",
             E1_NOTE, E1_TECH),
+    "C20": ("model_checking", "E2 Kernels",
+            "K2: the guard in multiply.py that admits the byte-oriented cmultiply kernel is translated from the AST to z3 and, with the kernel's key construction read from cmultiply.pyx "
+            "(sprintf '%c' -> low byte, UTF-8 decode), z3 proves over all 32-bit exponent rows (D=2, 2x2) that an admitted product only produces ASCII key bytes equal to the true key characters; "
+            "otherwise it returns concrete exponents, replayed on the compiled kernel. K3: the key encode/decode expressions are located in the sources and proved to round-trip and be injective over "
+            "bit-vectors (D<=3, e<2**31); the string-view axioms are validated against real numpy on boundary code points and by an exhaustive sweep of every exponent 0..55236 in every position. "
+            "K4: z3's string theory decides that a header the regex accepts yields the written key list. E1 ladder: raw view, align, * and **, derivative, call, pickle with symbolic coefficients on "
+            "exponents at the 128 / 256 / 0xD800 boundaries and 55000.",
+            "Trusted: z3; the axioms 'UCS4 code unit = uint32', 'sprintf %c keeps the low byte', 'UTF-8 decode is the identity exactly on ASCII' (the first validated each run). No Cython in the sandbox: the "
+            ".pyx text is analysed and replays run the shipped binaries. Outside: exponent sums >= 2**32, surrogate / beyond-Unicode key characters (errors are raised there).",
+            "bit-vector / string-theory proof obligations extracted from the sources (guard, codec, header) + symbolic execution on an exponent ladder + exhaustive codec sweep as axiom validation"),
 }
 
 
